@@ -2386,6 +2386,14 @@ def _glom(target, spec, scope):
 
         return (scope.maps[0][MIN_MODE] or scope.maps[0][MODE])(target, spec, scope)
     except Exception as e:
+        if NO_PYFRAME in scope.maps[1] and scope.maps[1].get(CUR_ERROR) is e:
+            # the chained parent scope already recorded this very exception: it was
+            # raised by a lazily evaluated child of that scope (e.g., an Iter generator
+            # consumed here), whose own bookkeeping ran on the way up
+            scope.maps[0][CUR_ERROR] = e
+            if _verif_hook is not None:
+                _verif_hook('error', scope, e)
+            raise
         scope.maps[1][CHILD_ERRORS].append(scope)
         scope.maps[0][CUR_ERROR] = e
         if NO_PYFRAME in scope.maps[1]:
